@@ -315,9 +315,9 @@ fn schema_mentions(s: &Schema, name: &str) -> bool {
 
 pub fn run(ctx: &mut Ctx, reg: &Registry) {
     let subs = subjects(reg);
-    let nvals = ctx.t(10, 80);
+    let nvals = nvals(ctx, 10, 80);
     for s in subs.iter() {
-        if !ctx.mine(s.index) || !ctx.wants_type(&s.label) {
+        if !ctx.mine(s.index) || !ctx.wants_type(&s.label) || !slow_keep(s) {
             continue;
         }
         let e = s.e;
